@@ -562,10 +562,13 @@ def guarded_by_field_true(field):
     from sa import guards as G
 
     def pred(body, bi, t):
+        fi = G.FnInfo.of(body)
         for g in G.guards(body, bi):
             if g["loop"]:
                 continue
-            if origin_config_field(g["origin"]) == field and G.edge_truth(g) is True:
+            # the true edge must *dominate* the call (a disjunction `flag || other` does not)
+            if origin_config_field(g["origin"]) == field and G.edge_truth(g) is True \
+                    and fi.cfg.edge_dominates(g["block"], g["succ"], bi):
                 return True
         return False
     return pred
